@@ -15,7 +15,7 @@ def IdInRange (c : Cell) (y : Nat) : Prop :=
 theorem lprim_identity {c c' : Cell} {lab : Lab} (hp : LPrim lab c c') (y : Nat) :
     ∀ a', c'.app? y = some a' → ∃ a, c.app? y = some a ∧
       (a'.identity = a.identity ∨ a'.identity = none ∨
-        ∃ k g grp, a'.identity = some k ∧ a.group = some g ∧ c.grp? g = some grp ∧ k ∈ grp.avail) := by
+        ∃ k g grp b, lab = .acquire y b ∧ a'.identity = some k ∧ a.group = some g ∧ c.grp? g = some grp ∧ k ∈ grp.avail) := by
   intro a' ha'
   by_cases ht : lab.target ≠ some y
   · obtain ⟨a, ha, _, e, _⟩ := lprim_untargeted hp ht a' ha'
@@ -82,7 +82,7 @@ theorem lprim_identity {c c' : Cell} {lab : Lab} (hp : LPrim lab c c') (y : Nat)
                 simp only [pure_ok, Prod.mk.injEq] at h
                 obtain ⟨rfl, _⟩ := h
                 rcases setApp_cases' (c := c) rfl ha ha' with e | e
-                · rw [e]; exact Or.inr (Or.inr ⟨k, g, grp, rfl, hg, hgrp, by simpa using hin⟩)
+                · rw [e]; exact Or.inr (Or.inr ⟨k, g, grp, _, rfl, rfl, hg, hgrp, by simpa using hin⟩)
                 · rw [e]; exact Or.inl rfl
     | @appMeta _ a1 a1' ha1 hid _ hidn =>
       rcases setApp_cases ha ha' with e | e
@@ -133,7 +133,7 @@ theorem idInRange_lprim {c c' : Cell} {lab : Lab} {y : Nat} (hi : InvId c) (hq :
     rw [hg0] at hcnt
     have ecnt : grp'.count = grp.count := Option.some.inj hcnt
     rw [ecnt]
-    rcases hcase with e | e | ⟨k2, g2, grp2, e1, e2, e3, e4⟩
+    rcases hcase with e | e | ⟨k2, g2, grp2, _, _, e1, e2, e3, e4⟩
     · exact hq a k g grp ha (by rw [← e]; exact hk) (by rw [← e_g]; exact hg) hg0
     · rw [e] at hk; cases hk
     · rw [e1] at hk
@@ -163,20 +163,10 @@ theorem fixInvalidIdentity_est {c c' : Cell} {y : Nat} (h : fixInvalidIdentity c
       · intro a' k' g' grp' ha' hk' _ _
         obtain ⟨b, hb, hcase⟩ := lprim_identity (.remove h) y a' ha'
         have hbn := hnone b hb
-        rcases hcase with e | e | ⟨k2, g2, grp2, e1, _⟩
+        rcases hcase with e | e | ⟨k2, g2, grp2, _, hl, _⟩
         · rw [e, hbn] at hk'; cases hk'
         · rw [e] at hk'; cases hk'
-        · -- remove never hands out identities
-          exfalso
-          obtain ⟨a0, s0, ha0, _, _, happs, _⟩ := serverRemove_shape h
-          rw [app?_of_apps happs, hb] at ha'
-          simp only [Option.map_some, Option.some.injEq] at ha'
-          rw [← ha'] at e1
-          split at e1
-          · rw [hb] at ha0; cases ha0
-            simp only [removeRec] at e1
-            rw [hbn] at e1; cases e1
-          · rw [hbn] at e1; cases e1
+        · cases hl
       · simp only [pure_ok] at h; subst h
         intro a' k' g' grp' ha' hk' _ _
         rw [hnone a' ha'] at hk'; cases hk'
